@@ -136,6 +136,15 @@ TARGETS = [
      {'params': [('master_key', 'str'), ('key_parts', ('list', 'str'))]}),
     ('cardutil/pinblock.py', 'calculate_pvv', {'pin': 'str', 'pvv_key': 'str', 'key_index': 'int', 'card_number': 'str'},
      'str', {'cipher': True, 'lean_name': 'calculate_pvv'}),
+    # the static encrypt / decrypt methods of the two encryption mix-ins (hex key text, then the cipher)
+    ('cardutil/pinblock.py', 'TdesEncryptedPinBlockMixin.encrypt', {'key': 'str', 'data': 'bytes'}, 'bytes',
+     {'static': True, 'cipher': True, 'lean_name': 'Tdes_encrypt'}),
+    ('cardutil/pinblock.py', 'TdesEncryptedPinBlockMixin.decrypt', {'key': 'str', 'cipher_data': 'bytes'}, 'bytes',
+     {'static': True, 'cipher': True, 'lean_name': 'Tdes_decrypt'}),
+    ('cardutil/pinblock.py', 'AESEncryptedPinBlockMixin.encrypt', {'key': 'str', 'data': 'bytes'}, 'bytes',
+     {'static': True, 'cipher': True, 'lean_name': 'Aes_encrypt'}),
+    ('cardutil/pinblock.py', 'AESEncryptedPinBlockMixin.decrypt', {'key': 'str', 'cipher_data': 'bytes'}, 'bytes',
+     {'static': True, 'cipher': True, 'lean_name': 'Aes_decrypt'}),
 ]
 
 # per class: the fields a method may use, and the wrapped file object as a `sink` (its write(e) appends to self_out) or a
@@ -1817,6 +1826,13 @@ def translate_all(repo=REPO):
             if len(fdefs) != 1:
                 raise Untranslatable('function not found (or defined more than once)')
             known = known_by_module.setdefault(path, {})
+            if cls is not None and opts.get('static'):
+                # a @staticmethod: a plain function that lives in a class body
+                if not any(isinstance(d, ast.Name) and d.id == 'staticmethod' for d in fdefs[0].decorator_list):
+                    raise Untranslatable('not a static method')
+                opts = dict(opts)
+                opts.setdefault('lean_name', f'{cls}_{fname}')
+                cls = None
             text, fn = translate_function(mod, fdefs[0], ptypes, ret, known, cls, opts)
             known[name] = fn
             ALL_KNOWN[name] = fn
